@@ -398,6 +398,57 @@ def constructive(rng, dim=2, family="mix", nnew=None, heights=False):
     return B
 
 
+def trilateration(rng, scale=None):
+    """a PURE trilateration network (round 4, stopping test): 3..5 fixed points, 1..3 new points, every new point tied
+    by distances only (3..5 of them, well conditioned), plus distances between the new points.  With approximate
+    coordinates off by decimetres EVERY positional misclosure of the stopping test is <= 0 (the distance recomputed
+    from the corrected coordinates is a convex function of them, the linearised one its tangent): the iteration goes
+    on only because TestLinearization takes |misclosure|."""
+    B = Builder(rng, 2, scale or rng.choice([200.0, 500.0, 1000.0]))
+    for _ in range(rng.choice([3, 4, 5])):
+        B.add_point("fix", "fix")
+    for _ in range(20):
+        if not_collinear(B.P, B.known()[:3], 0.3):
+            break
+        B.P, B.order = {}, []
+        for _ in range(rng.choice([3, 4, 5])):
+            B.add_point("fix", "fix")
+    made = 0
+    want = rng.choice([1, 2, 2, 3])
+    for _ in range(40):
+        if made >= want:
+            break
+        known = B.known()
+        xy = B.new_xy(far_from=0.1 * B.scale)
+        B.P["_"] = {"x": xy[0], "y": xy[1]}
+        ss = rng.sample(known, min(len(known), rng.choice([3, 4, 5])))
+        ok = well_conditioned(B.P, "_", ss[:3], 30.0) and not_collinear(B.P, ss, 0.3)
+        del B.P["_"]
+        if not ok:
+            continue
+        p = B.add_point("adj", "trilat", xy)
+        for s_ in ss:
+            if rng.random() < 0.5:
+                B.distance(s_, p)
+            else:
+                B.distance(p, s_)
+        B.setstep(p, f"trilat:{len(ss)}-distances")
+        made += 1
+    return B if made else None
+
+
+def variant_trilat_perturbed(net, rng):
+    """approximate coordinates of every unknown point off by 0.1 .. 0.5 m in each coordinate"""
+    n = copy.deepcopy(net)
+    n["params"]["tol-abs"] = 30000
+    for p in n["points"].values():
+        if p["status"] == "fix":
+            continue
+        for c in ("x", "y"):
+            p[c] += rng.choice([-1, 1]) * rng.uniform(0.1, 0.5)
+    return n
+
+
 def add_redundant(B, k):
     """k further consistent observations between existing points"""
     rng = B.rng
